@@ -501,6 +501,20 @@ def order_facts(pa, lo=0, hi=None):
     out = []
     for i in range(lo, hi):
         e = pa.log[i]
+        if e[0] == "cmp" and e[2] in ("Gt", "Ge", "Lt", "Le") and str(e[1]).endswith("@instant"):
+            # a comparison of instants a model decided (Instant::checked_duration_since): same canonical form
+            v = next((x[2] for x in pa.log[i:hi] if x[0] == "choice" and x[1] == e[1]), None)
+            if v is not None:
+                a, b = C.expr_of(pa, e[3], 0, i), C.expr_of(pa, e[4], 0, i)
+                if e[2] == "Gt":
+                    out.append((a, b, bool(v)))
+                elif e[2] == "Lt":
+                    out.append((b, a, bool(v)))
+                elif e[2] == "Le":
+                    out.append((a, b, not v))
+                else:
+                    out.append((b, a, not v))
+            continue
         if e[0] != "call":
             continue
         m = _CMP_RX.search(e[1])
